@@ -858,6 +858,10 @@ impl DirectAddrUpdateState {
                 // Release the net reporter before signalling: the actor reacts to the signal with
                 // `try_run`, which must find the reporter free to start a pending update.
                 drop(net_reporter);
+                #[cfg(iroh_verif)]
+                iroh_base::verif::event("direct_addr.run.released", || format!("{why:?}"));
+                #[cfg(iroh_verif)]
+                iroh_base::verif::pause_async("direct_addr.run.after_release").await;
                 // mark run as finished
                 debug!("direct addr update done ({:?})", why);
                 run_done.send(()).await.ok();
